@@ -282,6 +282,38 @@ def nested_cli(ctx, res):
                                    "case": case, "observed": ["%d %s" % (v, " ".join(k)) for v, k in lines]})
 
 
+def nested_overlap_cli(ctx, res):
+    """C04 through the binary: a stage that includes a (slow) pipeline does not hold back stages that do not depend on it: they, and the
+    stages depending only on them, start while the included pipeline is still running.  Map iteration order is random: repeated."""
+    import clilib
+    jobs = []
+    for rep in range(24 if ctx.tier == "thorough" else 10):
+        def mk(pipe, name, dur):
+            return {"command": ['date +%%s%%N > "$PROJ/m.start.%s.%s"; sleep %s; date +%%s%%N > "$PROJ/m.end.%s.%s"' % (pipe, name, dur, pipe, name)]}
+        tasks = {"in_slow": mk("in", "slow", "0.8"), "out_x": mk("out", "x", "0.02"), "out_y": mk("out", "y", "0.02"), "out_z": mk("out", "z", "0.02")}
+        pipes = {"pin": [{"task": "in_slow", "name": "slow"}],
+                 "pout": [{"pipeline": "pin", "name": "included"}, {"task": "out_x", "name": "x"}, {"task": "out_y", "name": "y", "depends_on": ["x"]}, {"task": "out_z", "name": "z"}]}
+        keep = ["m.%s.%s" % (k, n) for k in ("start", "end") for n in ("in.slow", "out.x", "out.y", "out.z")]
+        jobs.append({"id": rep, "files": {"cfg.json": clilib.jcfg({"tasks": tasks, "pipelines": pipes})}, "argv": ["-c", "cfg.json", "--raw", "run", "pipeline", "pout"], "keep": keep, "timeout": 30})
+    out = clilib.run_cli(ctx.workdir + "/nestedov", jobs, timeout=30, workers=4)
+    for j in jobs:
+        r = out[j["id"]]
+        res.evaluations += 1
+        res.count("nested-overlap-cli")
+        res.nontrivial_keys.add("nested-overlap")
+        case = {"kind": "nested-overlap-cli", "config": json.loads(j["files"]["cfg.json"])}
+        if r["timeout"] or clilib.crashed(r) or r["rc"] != 0:
+            res.violations.append({"class": None, "what": "running a pipeline with a nested pipeline failed, hung or crashed", "case": case, "observed": (r.get("err") or "")[-500:]})
+            continue
+        t = {k: int(v.strip()) for k, v in r["files"].items() if v.strip().isdigit()}
+        slow_end = t.get("m.end.in.slow")
+        late = [n for n in ("x", "y", "z") if slow_end is None or t.get("m.start.out." + n, 10 ** 30) > slow_end]
+        if late:
+            res.violations.append({"class": None, "what": "stages independent of an included (slow) pipeline were not started while it was running: %s" % ",".join(late),
+                                   "case": case, "observed": {k: v for k, v in sorted(t.items(), key=lambda kv: kv[1])}})
+            break
+
+
 def nested_conderr_cli(ctx, res):
     """C03 through the binary: a stage condition that cannot be evaluated (the scheduler cancels the run) inside a NESTED pipeline, in the
     enclosing pipeline while a nested one is running, with tasks in flight: the run returns in bounded time."""
@@ -418,4 +450,6 @@ def run(ctx, prop):
         nested_cli(ctx, res)
     if prop == "C03" and not ctx.replay_cases:
         nested_conderr_cli(ctx, res)
+    if prop == "C04" and not ctx.replay_cases:
+        nested_overlap_cli(ctx, res)
     return res
